@@ -126,10 +126,12 @@ class _ScopeBase:
 
         builtins = global_dict["__builtins__"] if "__builtins__" in global_dict else {}
 
-        for name in local_names:
+        # the name sets are Python sets of strings, iterate them in a fixed order
+        # (the order of the resulting dict decides which alias names an object)
+        for name in sorted(local_names):
             result[name] = _Unbound
 
-        for name in nonlocal_names:
+        for name in sorted(nonlocal_names):
             if name in nonlocal_dict:
                 result[name] = nonlocal_dict[name]
             elif name in global_dict:
